@@ -7,8 +7,8 @@ CONSTANTS MaxLen, Size3      \* Size3: include expressions of size 3
 
 \* UTF-8 of a, b, z, pi (the harness also substitutes e acute: no octet in common either way), euro
 \* and two symbols no expression names that share lead octets with them: rho (one octet with pi; e grave with e acute),
-\* kip sign U+20AD (two octets with euro)
-EncDef == << <<97>>, <<98>>, <<122>>, <<207, 128>>, <<226, 130, 172>>, <<207, 129>>, <<226, 130, 173>> >>
+\* kip sign U+20AD (two octets with euro), rightwards arrow U+2192 (one octet with euro)
+EncDef == << <<97>>, <<98>>, <<122>>, <<207, 128>>, <<226, 130, 172>>, <<207, 129>>, <<226, 130, 173>>, <<226, 134, 146>> >>
 NSym == Cardinality(Sigma)
 A == 1  B == 2  Z == 3  P == 4  E == 5
 Name(c) == CASE c = 1 -> "a" [] c = 2 -> "b" [] c = 3 -> "z" [] c = 4 -> "P" [] c = 5 -> "E"
